@@ -957,7 +957,11 @@ func runC03(a *Args) error {
 			case 1:
 				c.Stores[j].Certs = []int64{}
 			case 2:
-				c.Stores[j].Certs = append([]int64{0}, c.Stores[j].Certs...)
+				// not for tsa stores: verifyTimestamp hands every element to x509.CertPool.AddCert,
+				// which panics on nil (outside this property; reported to the coordinator for C12)
+				if c.Stores[j].Type != "tsa" {
+					c.Stores[j].Certs = append([]int64{0}, c.Stores[j].Certs...)
+				}
 			}
 			c.Labels = append(c.Labels, "empty-nil-variant")
 		}
